@@ -9,6 +9,7 @@ import Oracle.TokenEngine
 import Oracle.CcbEngine
 import Oracle.CancelEngine
 import Oracle.PrivacyEngine
+import Oracle.DecodeEngine
 
 def main (args : List String) : IO UInt32 := do
   match args with
@@ -23,6 +24,7 @@ def main (args : List String) : IO UInt32 := do
   | ["ccb"] => Oracle.CcbEngine.run; return 0
   | ["cancel"] => Oracle.CancelEngine.run; return 0
   | ["privacy"] => Oracle.PrivacyEngine.run; return 0
+  | ["decode"] => Oracle.DecodeEngine.run; return 0
   | _ =>
     IO.eprintln "usage: cedar_oracle <engine>   (one op per stdin line, one reply per line)"
     return 2
